@@ -84,4 +84,55 @@ def adjDistinct : List (Nat × List Line) → Bool
   | (p, _) :: (q, b) :: rest => p != q && adjDistinct ((q, b) :: rest)
   | _ => true
 
+/-! ### The block grammar of `--heading`
+
+A block is the path on a line of its own followed by the file's result lines (which carry no path; context
+separators `--` between context groups are result lines here); blocks are separated by blank lines
+(the empty file separator plus its terminator).  A result line is never blank. -/
+
+inductive HLine where
+  | head (p : Nat)
+  | body (x : Bytes)
+  | blank
+  deriving Repr, DecidableEq, Inhabited
+
+def HLine.isBody : HLine → Bool
+  | .body _ => true
+  | _ => false
+
+/-- a heading block of file `p`: its path line, then at least one result line -/
+def wfHBlock (p : Nat) (b : List HLine) : Bool :=
+  match b with
+  | .head q :: tl => q == p && !tl.isEmpty && tl.all HLine.isBody
+  | _ => false
+
+def joinHLines (k : Nat) : List (Nat × List HLine) → List HLine
+  | [] => []
+  | [(_, b)] => b
+  | (_, b) :: rest => b ++ List.replicate k HLine.blank ++ joinHLines k rest
+
+structure HPS where
+  blocks : List (Nat × List HLine) := []   -- most recent first
+  gaps : List Nat := []
+  pending : Nat := 0                        -- blank lines since the last block line
+  isOpen : Bool := false                    -- inside a block (no blank line since its last line)
+  stray : Nat := 0
+  bad : Bool := false                       -- a result line outside any block
+  deriving Repr, DecidableEq, Inhabited
+
+def hstep (st : HPS) : HLine → HPS
+  | .blank => { st with pending := st.pending + 1, isOpen := false }
+  | .head p =>
+    match st.blocks with
+    | [] => { st with blocks := [(p, [.head p])], stray := st.pending, pending := 0, isOpen := true }
+    | _ :: _ => { st with blocks := (p, [.head p]) :: st.blocks, gaps := st.pending :: st.gaps, pending := 0, isOpen := true }
+  | .body x =>
+    match st.blocks with
+    | (q, ls) :: rest => if st.isOpen then { st with blocks := (q, ls ++ [.body x]) :: rest } else { st with bad := true }
+    | [] => { st with bad := true }
+
+def parseH (ls : List HLine) : List (Nat × List HLine) × List Nat × Nat × Nat × Bool :=
+  let st := ls.foldl hstep {}
+  (st.blocks.reverse, st.gaps.reverse, st.stray, st.pending, st.bad)
+
 end RgVerif.BlockSpec
